@@ -145,7 +145,12 @@ func c16IDBase(idx int) int {
 	return []int{0, 65500, 0, 16777000, 1 << 31, 0, 4294000000, 65000}[idx%8]
 }
 
-func c16Script(opsl []c16Op, capPages int, dir string, idBase int) script {
+// c16FlushEvery: dirty pages are flushed after every statement, or after every
+// second, third or fifth one (the dirty set the capacities are chosen above is
+// then that of the whole window, as measured in the reference run).
+func c16FlushEvery(idx int) int { return []int{1, 1, 2, 3, 5, 1, 2, 4}[(idx/2)%8] }
+
+func c16Script(opsl []c16Op, capPages int, dir string, idBase int, flushEvery ...int) script {
 	var s script
 	s.add(proto.Op{K: "cfg", N: 1, M: capPages, S: "count-misses"})
 	s.k("init")
@@ -154,14 +159,22 @@ func c16Script(opsl []c16Op, capPages int, dir string, idBase int) script {
 	if idBase > 0 {
 		s.add(proto.Op{K: "setlastkey", N: idBase})
 	}
+	fe, nst := 1, 0
+	if len(flushEvery) > 0 && flushEvery[0] > 1 {
+		fe = flushEvery[0]
+	}
 	for _, o := range opsl {
 		if o.stmt != nil {
 			s.stmt(o.stmt)
-			s.k("flush")
+			nst++
+			if nst%fe == 0 {
+				s.k("flush")
+			}
 		} else {
 			s.query(o.query)
 		}
 	}
+	s.k("flush")
 	s.k("dump")
 	s.add(proto.Op{K: "walk", M: 1})
 	s.k("stats")
@@ -182,7 +195,7 @@ func rowsKey(r *proto.Res) string {
 }
 
 func checkC16(c *core.Ctx) []core.Floor {
-	c.Rule = "seeded workloads over 2-4 tables of 200-500 rows (quick) / 300-2000 rows (thorough) (inserts <= 40 rows, updates/deletes over <= 12 consecutive keys - in one workload in four also over 150-320 consecutive keys, changing 40-80 pages in one statement -, full scans, filtered scans, catalog scans), dirty pages flushed after every statement, in a fresh database or in one whose row-id counter starts just below 2^16, 2^24, 2^31 or close to 2^32; run once with the default cache (10000 pages), measuring the largest per-statement dirty set and the tree height, then with small capacities chosen above that dirty set (precondition of the property guaranteed by construction); every statement outcome, every SELECT result (with row ids) and the final contents must be identical. Beyond the property's precondition (a statement whose dirty set EXCEEDS the capacity) one more thing is judged, on as many further runs: the statement may be refused with 'cache is full', but if it reports success its effects have to be there - every row of an accepted UPDATE changed, of an accepted DELETE gone, of an accepted INSERT present - immediately and after flush + reload. Distinct = (workload, capacity); non-trivial = the small run re-read at least 1000 pages from the file."
+	c.Rule = "seeded workloads over 2-4 tables of 200-500 rows (quick) / 300-2000 rows (thorough) (inserts <= 40 rows, updates/deletes over <= 12 consecutive keys - in one workload in four also over 150-320 consecutive keys, changing 40-80 pages in one statement -, full scans, filtered scans, catalog scans), dirty pages flushed after every statement - or after every second, third, fourth or fifth one -, in a fresh database or in one whose row-id counter starts just below 2^16, 2^24, 2^31 or close to 2^32; run once with the default cache (10000 pages), measuring the largest per-statement dirty set and the tree height, then with small capacities chosen above that dirty set (precondition of the property guaranteed by construction); every statement outcome, every SELECT result (with row ids) and the final contents must be identical. Beyond the property's precondition (a statement whose dirty set EXCEEDS the capacity) one more thing is judged, on as many further runs: the statement may be refused with 'cache is full', but if it reports success its effects have to be there - every row of an accepted UPDATE changed, of an accepted DELETE gone, of an accepted INSERT present - immediately and after flush + reload. Distinct = (workload, capacity); non-trivial = the small run re-read at least 1000 pages from the file."
 	c.Assume = []string{"the default-capacity run is the reference; its own correctness is C01's business"}
 	drv := mustDriver(c, false)
 	n := 24
@@ -202,7 +215,7 @@ func runC16(c *core.Ctx, drv string, idx int) {
 	opsl := buildC16(c, idx)
 	dir := c.CaseDir("c16")
 	defer removeAll(dir)
-	ref := c16Script(opsl, 0, dir, c16IDBase(idx))
+	ref := c16Script(opsl, 0, dir, c16IDBase(idx), c16FlushEvery(idx))
 	out := core.RunScript(drv, dir, ref.ops, 300*time.Second)
 	if out.Died {
 		c.Inconclusive("reference-run", fmt.Sprintf("default-capacity run died at op %d: %s", out.LastBeg, core.FatalTail(out.Stderr)))
@@ -218,7 +231,7 @@ func runC16(c *core.Ctx, drv string, idx int) {
 			return
 		}
 	}
-	walkRes := out.Res[len(ref.ops)-3]
+	walkRes := out.Res[len(ref.ops)-3] // (dump, walk, stats, close are the last four operations)
 	stats, _ := checkTrees(walkRes.Trees)
 	height, pages := 1, 0
 	for _, st := range stats {
@@ -244,7 +257,7 @@ func runC16(c *core.Ctx, drv string, idx int) {
 			continue
 		}
 		d2 := c.CaseDir("c16s")
-		sc := c16Script(opsl, cp, d2, c16IDBase(idx))
+		sc := c16Script(opsl, cp, d2, c16IDBase(idx), c16FlushEvery(idx))
 		o2 := core.RunScript(drv, d2, sc.ops, 300*time.Second)
 		removeAll(d2)
 		replay := func(at int) interface{} {
@@ -261,7 +274,7 @@ func runC16(c *core.Ctx, drv string, idx int) {
 			if len(texts) > 40 {
 				texts = append([]string{fmt.Sprintf("... %d earlier statements (workload C16/%d of this seed)", len(texts)-40, idx)}, texts[len(texts)-40:]...)
 			}
-			return map[string]interface{}{"workload": idx, "capacity": cp, "max_dirty_pages_per_statement": maxDirty, "tree_height": height, "statements": texts, "how": "flush after every statement; compare with the same workload at the default capacity"}
+			return map[string]interface{}{"workload": idx, "capacity": cp, "max_dirty_pages_per_statement": maxDirty, "tree_height": height, "statements": texts, "flush_after_every_n_statements": c16FlushEvery(idx), "how": "flush after every n-th statement; compare with the same workload at the default capacity"}
 		}
 		c.Count("small_cache_runs", 1)
 		if o2.Died {
